@@ -9,9 +9,15 @@ CONFIG = {
         "timeout": {"quick": 900, "thorough": 3000},
     }, {
         "name": "eval", "pkg": "./ledger/eval/", "run": "^TestVerifC28Eval$",
-        "files": ["ledger/eval/zz_verif_c29_test.go"],
+        "files": ["ledger/eval/zz_verif_c29_test.go", "ledger/eval/zz_verif_c28_compose_test.go"],
         "util": [("ledger/eval", "eval")],
         "env": {"quick": {"VERIF_C28_EVAL_N": 1500}, "thorough": {"VERIF_C28_EVAL_N": 12000}},
+        "timeout": {"quick": 900, "thorough": 3000},
+    }, {
+        "name": "compose", "pkg": "./ledger/eval/", "run": "^TestVerifC28Compose$",
+        "files": ["ledger/eval/zz_verif_c29_test.go", "ledger/eval/zz_verif_c28_compose_test.go"],
+        "util": [("ledger/eval", "eval")],
+        "env": {"quick": {}, "thorough": {}},
         "timeout": {"quick": 900, "thorough": 3000},
     }],
     "rule": "vg: the real verify.TxnGroup on groups of 1-16 transactions signed with REAL keys (7 ed25519 keys, 2 Falcon-1024 keys): plain "
@@ -30,7 +36,16 @@ CONFIG = {
             "result (reason code, group index, cause). tg: the real BlockEvaluator.TransactionGroup over a test ledger with rekeyed accounts: "
             "groups of 1-18 payments with rekeys inside the group and right / cleared / foreign / stale / = sender / bit-flipped AuthAddr or a "
             "changed sender; validate mode on (14 of 15) and off; the model must predict the result and the AuthAddr of every sender afterwards. "
-            "Non-trivial: vg some signature material present; tg some account rekeyed, AuthAddr or RekeyTo set. distinct = distinct case lines.",
+            "vc (exhaustive matrix, 452 cases every run): the SAME signed transaction through verify.TxnGroup AND BlockEvaluator.TransactionGroup "
+            "(validate) on a ledger holding 24 senders = {plain key, multisig address, contract (program hash), Falcon PQ address} x {not rekeyed, "
+            "rekeyed to a plain key / a multisig address / a contract address / a PQ address, rekeyed away and back to itself}; authorised by "
+            "{the current authorizer, the sender's own identity (= the previous authorizer), a foreign identity} in every flavour that identity "
+            "can produce (signature, LogicSig delegated by signature; multisig, LogicSig delegated by Msig / LMsig; escrow LogicSig; PQ signature, "
+            "LogicSig delegated by the PQ key) with AuthAddr = {what the ledger says, the authorising identity, empty, foreign}; plus two-member "
+            "groups whose first member rekeys the sender and whose second member is authorised by the new / the previous authorizer. The model "
+            "must predict both results; spec_ok is evaluated on the COMPOSITION (C28_only_current_authorizer / C28_compose_spec_ok_sound): "
+            "accepted by both => exactly one category and authorised by the current authorizer of the sender in the ledger state. "
+            "Non-trivial: vg / vc some signature material present; tg some account rekeyed, AuthAddr or RekeyTo set. distinct = distinct case lines.",
     "exhaustive": {"quick": False, "thorough": False},
     "explanation": "theorems hold for every signature / PQ verification function, every hash function, all consensus switches, groups of any "
                    "length and any content; the cases test the transcription (model = code) and evaluate the declarative oracle accept_ok_b "
